@@ -1,9 +1,111 @@
 """C07 — the inverted index records exactly terms/docs/freqs/positions: only the code tables."""
 from .. import codetab as ct
 from ..rules import get_body, short, site
-from ..model import op_place, op_local, place_local, is_bare, trace_back
+from ..model import op_place, op_local, place_local, is_bare, trace_back, provenance
 
 T = "tantivy::schema::field_type::Type"
+
+
+CURSOR_CONFIG = {
+    ("postings::block_segment_postings::BlockSegmentPostings", "requested_option"):
+        "what the user asked for when the cursor was opened (added by the F47 repair); reset() keeps it and re-derives freq_reading_option from it for the new term",
+}
+
+
+def _depends_on_param(body, local, limit=300):
+    """does the value of `local` depend on a parameter of the function — through data (statement operands,
+    call arguments) or, for locals with several definitions, through the switches that choose among them"""
+    from ..rules import dominating_guards
+    seen, work = set(), [local]
+    defs = body.defs()
+    while work and len(seen) < limit:
+        l = work.pop()
+        if l in seen:
+            continue
+        seen.add(l)
+        if 1 <= l <= body.argc:
+            return True
+        ds = defs.get(l, [])
+        for d in ds:
+            if d[0] == "call":
+                for o in d[2].get("args", []):
+                    if op_local(o) is not None:
+                        work.append(op_local(o))
+            else:
+                st = d[3]
+                if st.get("r") in ("ref", "rawptr", "discr") and "p" in st:
+                    work.append(place_local(st["p"]))
+                for o in st.get("o", []):
+                    if op_local(o) is not None:
+                        work.append(op_local(o))
+            if len(ds) > 1:
+                for sb, through, gl in dominating_guards(body, d[1]):
+                    work.append(gl)
+    return False
+
+
+def r6(rep, prog):
+    """a cursor that is reset on another term forgets everything that depended on the previous term"""
+    import re
+    from ..mergecov import Aliases, fmt_path
+    R = "C07-R6"
+    rep.rule(R, "constructor / reset agreement of the posting cursors: BlockSegmentPostings and SkipReader can be re-pointed at another term (`reset`, reached through the public InvertedIndexReader::reset_block_postings_from_terminfo). The layout of a posting list is decided per term (a JSON field stores numeric terms without frequencies — 5-byte skip entries — and text terms with them), so every field that the constructor (`open` / `new`) derives from its parameters must also be assigned by `reset` (directly or through a method of self it calls); a field that only the constructor sets keeps the previous term's layout: wrong skip entry size, stale term frequencies, out-of-bounds panics")
+    PAIRS = [("tantivy::postings::block_segment_postings::BlockSegmentPostings", "open", "reset"),
+             ("tantivy::postings::skip::SkipReader", "new", "reset")]
+    n = 0
+    for ty, ctor, rst in PAIRS:
+        cb = get_body(rep, prog, R, "%s::%s" % (ty, ctor))
+        rb = get_body(rep, prog, R, "%s::%s" % (ty, rst))
+        if cb is None or rb is None:
+            continue
+        # fields of the struct literal in the constructor and whether their value depends on a parameter
+        dep = {}
+        for bi in cb.normal_blocks():
+            for st in cb.stmts(bi):
+                if st.get("r") == "agg" and st.get("adt") == ty and "fields" in st:
+                    for fld, o in zip(st["fields"], st.get("o", [])):
+                        l = op_local(o)
+                        d = _depends_on_param(cb, l) if l is not None else False
+                        dep[fld] = d
+        if not rep.check(bool(dep), R, "%s::%s builds the struct by literal" % (short(ty), ctor), "%d fields" % len(dep), "cannot establish: no struct literal of %s in %s" % (ty, ctor), site=cb.span):
+            continue
+        # fields reset() stores into, including through methods of self
+        memo = {}
+
+        def writes(fid, depth=0):
+            if fid in memo:
+                return memo[fid]
+            memo[fid] = set()
+            b = prog.bodies.get(fid)
+            if b is None:
+                return set()
+            al = Aliases(b, {1: "self"})
+            out = {u[2][0][1] for u in al.uses() if u[1] == "self" and u[0] in ("w", "rw") and u[2] and u[4] == "store"}
+            for bi, t in b.calls():
+                f = t.get("res") or t.get("f") or ""
+                if not t.get("args"):
+                    continue
+                r = al.resolve(op_place(t["args"][0]))
+                if r and r[0] == "self" and depth < 3:
+                    if r[1] == () and f in prog.bodies:
+                        out |= writes(f, depth + 1)
+                    elif r[1] and f.endswith("::reset"):
+                        out.add(r[1][0][1])      # a sub-object that is itself reset
+            memo[fid] = out
+            return out
+        wr = writes("%s::%s" % (ty, rst))
+        for fld, depends in sorted(dep.items()):
+            if not depends:
+                continue
+            if (short(ty), fld) in CURSOR_CONFIG:
+                rep.ok(R, "%s.%s is configuration of the cursor, not of the term" % (short(ty), fld), CURSOR_CONFIG[(short(ty), fld)])
+                continue
+            n += 1
+            rep.check(fld in wr, R, "%s::%s re-derives `%s`" % (short(ty), rst, fld), "assigned by the constructor from its parameters and by reset",
+                      "%s::%s computes `%s` from its parameters, %s::%s never assigns it: a cursor re-pointed at a term with another layout (numeric vs text term of a JSON field, or any term after "
+                      "BlockSegmentPostings::empty()) keeps the previous term's `%s` — skip entries are read with the wrong size and stale term frequencies survive (panics `Compressed array seems too small`, "
+                      "slice out of range, or tf 3 where a fresh cursor gives 1)" % (short(ty), ctor, fld, short(ty), rst, fld), site=rb.span)
+    rep.floor(R, "parameter-dependent constructor fields compared", n, 6)
 
 
 def r5(rep, prog):
@@ -39,6 +141,7 @@ def run(rep, prog, tier):
     rep.not_decided += ["everything about posting-list content, positions, term dictionaries (values)"]
     r3(rep, prog)
     r5(rep, prog)
+    r6(rep, prog)
     r4(rep, prog)
     tc = get_body(rep, prog, "C07-R1", T + "::to_code")
     fc = get_body(rep, prog, "C07-R1", T + "::from_code")
